@@ -9,6 +9,7 @@
       sexp_env_cell_loc / sexp_env_cell  eval.c:105-124
       sexp_strip_synclos                 eval.c:638-664   (without the depth bound 10000)
       sexp_identifier_eq_op              eval.c:666-695
+      sexp_extend_synclo_env             eval.c:235-255   ([copy_frame], [extend_synclo_env]; round 3)
 
     Object identity.  The C code compares keys and cells with pointer equality.  Here every syntactic
     closure carries an allocation number [id] and every binding cell a number [cid]; two closures
@@ -132,6 +133,30 @@ Definition env_cell (cfv : list fvitem) (rho : env) (k : sexp) (localp : bool) :
   | Some c => Some c
   | None => peel rho0 redirected k localp
   end.
+
+(** eval.c:242-249, one iteration of the copy loop of sexp_extend_synclo_env: a fresh env object that
+    SHARES the bindings list and the renames list of the frame it copies (sexp_env_syntactic_p = 1
+    matters to define only, which is outside this model).  The imported bindings of a program or library
+    are exactly the entries of the renames lists (sexp_env_import_op, eval.c:2656-2720). *)
+Definition copy_frame (f : frame) : frame := Frame (f_renames f) (f_bindings f).
+
+(** sexp_extend_synclo_env (ctx, env), eval.c:235-255: with no free names anywhere in the context
+    (sexp_context_fv(ctx) not a pair) the closure's environment [e] is used as it is; otherwise every
+    frame of it is copied and the context's current environment [cenv] becomes the parent of the last
+    copy.  ([e] is never the NULL environment in chibi: for it the C code returns the OOM error object.) *)
+Definition extend_synclo_env (cfv : list fvitem) (cenv e : env) : env :=
+  match cfv with
+  | [] => e
+  | _ :: _ => map copy_frame e ++ cenv
+  end.
+
+(** the context change made by analyze when it meets a syntactic closure (env E, free names fv) around a
+    non-identifier, eval.c:1216-1224: if the closure has free names the current environment is pushed
+    on the fv list and the names are put in front of it; then the environment is extended as above *)
+Definition enter_fv (cfv : list fvitem) (rho : env) (fv : list sexp) : list fvitem :=
+  match fv with [] => cfv | _ :: _ => map FvId fv ++ FvEnv rho :: cfv end.
+Definition enter_env (cfv : list fvitem) (rho E : env) (fv : list sexp) : env :=
+  extend_synclo_env (enter_fv cfv rho fv) rho E.
 
 (** sexp_strip_synclos, eval.c:638-664 (depth bound SEXP_STRIP_SYNCLOS_BOUND not modelled) *)
 Fixpoint strip (x : sexp) : sexp :=
